@@ -389,6 +389,14 @@ def _k1(ctx: Context) -> None:
             src = ctx.const(rf, n.value.slice, None)
             if isinstance(kw, str) and isinstance(src, str):
                 R[src] = kw
+            else:
+                # key and keyword held in locals (one row of a table of (json key, keyword) pairs): by value at that statement
+                rcfg = ctx.cfg(rf.qualname)
+                for cn in rcfg.nodes:
+                    if cn.kind == "stmt" and cn.ast is n:
+                        tk, ts = T.of(rcfg, cn, n.targets[0].slice), T.of(rcfg, cn, n.value.slice)
+                        if tk[0] == "const" and ts[0] == "const" and isinstance(tk[1], str) and isinstance(ts[1], str):
+                            R[ts[1]] = tk[1]
         if isinstance(n, ast.Call) and isinstance(n.func, ast.Attribute) and n.func.attr == "add_char":
             add_char_calls.append(n)
         if isinstance(n, ast.Call) and isinstance(n.func, ast.Attribute) and n.func.attr == "set_value" and n.args and isinstance(n.args[0], ast.Subscript):
